@@ -40,6 +40,15 @@ def run_case(case, ctx):
     A = palette.block_matrix(ctx.rng(0), q0, q1, kind)
     if kind == 'real':
         A = A.real.copy()
+    # memory layout of the argument: C-contiguous, Fortran-ordered, or a non-contiguous view (keyed by the case, all three occur)
+    lay = (len(q0l) + 2 * len(q1l) + sum(q0l) + sum(q1l)) % 3
+    if lay == 1:
+        A = np.asfortranarray(A)
+    elif lay == 2:
+        big = np.zeros((2 * m, 2 * n), dtype=A.dtype)
+        big[::2, ::2] = A
+        A = big[::2, ::2]
+    ctx.cls(('layout:C', 'layout:F', 'layout:strided_view')[lay])
     A0 = A.copy()
     Q, R, qi = qr(A, q0, q1)
     ctx.calls += 1
